@@ -1,8 +1,27 @@
 from vlib import H
 PROPERTY = 'C23'
 LEVEL = 'model_checking'
-CLAIM = 'draft'
+CLAIM = ('Kernel level only (template validity via TestBlockValidity, topological order, finality and coinbase = subsidy + fees inside CreateNewBlock need a live chainstate/mempool and are NOT claimed). '
+         'Resource limits of block templates by induction over chunks, on the real code: (1) node::CheckMiningOptions / FlattenMiningOptions (node/mining_args.cpp; this tree\'s option validation, the successor of ClampOptions) '
+         'accept a BlockCreateOptions <=> 2000 <= block_reserved_weight <= block_max_weight <= MAX_BLOCK_WEIGHT and coinbase_output_max_additional_sigops <= MAX_BLOCK_SIGOPS_COST, with defaults 8000 / 4,000,000 filled in, for all 64-bit option values; '
+         '(2) on a phantom BlockAssembler holding any accepted options: resetBlock() starts the counters at the reserved weight / reserved sigops (invariant: reserved <= weight <= max <= 4,000,000, sigops <= 80,000); from ANY counter state '
+         'satisfying the invariant, TestChunkBlockLimits(chunk, sigops) admits a chunk <=> weight + chunk size < max and sigops + chunk sigops < 80,000 (128-bit reference), and after the real AddToBlock of each of the chunk\'s transactions '
+         'nBlockWeight, nBlockSigOpsCost, nFees, nBlockTx are exactly the sums, weight < max <= MAX_BLOCK_WEIGHT and sigops < 80,000 hold again, and the per-transaction fee / sigop vectors of the template are recorded in order.')
+LINK = ['node/mining_args.cpp', 'node/miner.cpp', 'primitives/transaction.cpp', 'script/script.cpp', 'uint256.cpp', 'policy/feerate.cpp', 'crypto/hex_base.cpp']
+NOLOG = ['_ZN4util3log23LogPrintFormatInternal_[A-Za-z0-9_]*']
+FN = ['node::CheckMiningOptions', 'node::FlattenMiningOptions (node/mining_args.cpp)', 'node::BlockAssembler::resetBlock', 'node::BlockAssembler::TestChunkBlockLimits', 'node::BlockAssembler::AddToBlock (node/miner.cpp)',
+      'CTxMemPoolEntry constructor/getters (kernel/mempool_entry.h)', 'util::Result / util::Error']
+STUBS = ['phantom BlockAssembler: typed zeroed storage, only m_options / counters / pblocktemplate constructed (chainparams, mempool, chainstate references never read by these methods)',
+         'phantom CTxMemPoolEntry: real constructor on a 1-in/1-out transaction, then nTxWeight poked to a symbolic value (fee and sigop cost are constructor arguments)',
+         'TxGraph::Ref::~Ref, nBytesPerSigOp, GetVirtualTransactionSize (only used by the optional -printpriority log line; print_modified_fee is false/unset in the harness)',
+         'CSHA256 unconstrained (txid values irrelevant)', 'tinyformat -> empty strings; LogPrintFormatInternal_ emptied; util::log sinks dropped', 'memory_cleanse no-op', 'assertion_fail -> CBMC assertion']
 HARNESSES = [
-    H('options', 'limits.cpp', 'h_options', link=['node/mining_args.cpp', 'node/miner.cpp'], shadow=['nofmt'], unwind=12, timeout=300, objbits=10, functions=['CheckMiningOptions'], bounds='draft'),
-    H('limits', 'limits.cpp', 'h_limits', link=['node/mining_args.cpp', 'node/miner.cpp'], variants=[{'NTX': 1}, {'NTX': 2}], shadow=['nofmt'], unwind=12, memunwind=600, noop=[r'_ZNSt15_Sp_counted_ptrIP12CTransaction\w*10_M_disposeEv'], timeout=300, objbits=10, functions=['TestChunkBlockLimits'], bounds='draft'),
+    H('options', 'limits.cpp', 'h_options', link=LINK, shadow=['nofmt'], unwind=12, timeout=300, objbits=10, functions=FN, stubs=STUBS,
+      bounds='block_reserved_weight / block_max_weight: unset or any 64-bit value; coinbase_output_max_additional_sigops any 64-bit value; use_argnames symbolic'),
+    H('limits', 'limits.cpp', 'h_limits', link=LINK, variants=[{'NTX': 1}, {'NTX': 2}], tvariants=[{'NTX': 1}, {'NTX': 2}, {'NTX': 3}, {'NTX': 5}], shadow=['nofmt'], unwind=12, memunwind=600, noop=NOLOG, timeout=300, objbits=10,
+      functions=FN, stubs=STUBS,
+      assumptions=['options passed CheckMiningOptions (the BlockAssembler constructor throws otherwise)', 'counter state: reserved <= nBlockWeight <= max, nBlockSigOpsCost <= 80,000, 0 <= nFees <= MAX_MONEY (the invariant itself; established by resetBlock, re-established by every admitted chunk)',
+                   'chunk: FeePerWeight.size == sum of the transactions\' weights, each weight >= 0, sum <= INT32_MAX; per-transaction sigop cost in [0, 80,000]; fees in [0, MAX_MONEY/NTX] (TxGraph / mempool acceptance contracts)',
+                   'the coinbase allowance is exactly what the options reserve (block_reserved_weight, coinbase_output_max_additional_sigops): whether the real coinbase stays inside it is the caller\'s contract'],
+      bounds='chunks of 1..2 transactions (thorough 1,2,3,5); every counter / option / weight / sigop / fee value symbolic within the stated ranges'),
 ]
